@@ -1234,7 +1234,7 @@ func Run(r *common.Run) error {
 		}
 		cl = noForeign(cfg, cl)
 		k := 1 + rnd.Intn(len(toks)-1)
-		c.behind(cfg, pickS(rnd, []string{"fail", "finish", "twfail"}), rnd.Intn(k+1), k, toks, cl)
+		c.behind(cfg, pickS(rnd, []string{"fail", "finish", "twfail", "encfail"}), rnd.Intn(k+1), k, toks, cl)
 	}
 	nConc := r.Pick(30, 300)
 	for i := 0; i < nConc; i++ {
